@@ -9,8 +9,10 @@ the micro-traces, call results and final semaphore values must be identical; pro
 (Gallina, evaluated on the implementation's trace alone) classify a difference."""
 import json
 import random
+import threading
 from vlib import core
 from vlib.core import cz, cbool, clist
+from props import c17real
 
 MANIFEST = dict(
     text='Theorems (Coq; any number of threads, any scripts of client calls, any schedule at semaphore-operation grain, '
@@ -177,23 +179,52 @@ def correspond(res, n):
                 c17_primitive_crosscheck=dict(cases=prim['cases'], ops=prim['ops'], mismatches=len(prim['mismatches'])))
 
 
+def real_scenarios(res):
+    """the REAL primitive: billiard's classes over the real _multiprocessing.SemLock, shared by real
+    forked processes and real threads (harness/c17_real_driver.py); judged by the monitors of
+    props/c17real.py alone (no model involved).  Runs beside the schedule-exact correspondence."""
+    box = {}
+
+    def work():
+        try:
+            box['cov'] = c17real.run_real(res)
+        except Exception as exc:      # noqa
+            res.broken.append(dict(kind='correspondence', name='c17 real driver', detail=repr(exc)[-1500:]))
+            box['cov'] = dict(c17real_scenarios=0, c17real_error=type(exc).__name__)
+    th = threading.Thread(target=work, daemon=True)
+    th.start()
+    return th, box
+
+
 def run(res):
     res.proof_step('Props/C17.v', extra_targets=['Model/CondCheck.vo'], kernels_needed=['P_cond'])
     n = 300 if res.tier == 'quick' else 20000
     if res.broken:
         n = max(n, 3000)      # failing-input search
+    th, box = real_scenarios(res)
     correspond(res, n)
+    th.join()
+    cov = box.get('cov', {})
+    res.add_cov(evaluations=cov.get('c17real_scenarios', 0), distinct=cov.get('c17real_scenarios', 0),
+                traces=cov.get('c17real_scenarios', 0),
+                rule='real-primitive scenarios: billiard Condition/Event/Semaphore/BoundedSemaphore/Lock/RLock of '
+                     "get_context('fork') over the real _multiprocessing.SemLock, shared by forked processes and threads; "
+                     'judged by outcome monitors only (props/c17real.py); every scenario is distinct',
+                **cov)
     res.assumptions += [
         'the semantics of _multiprocessing.SemLock is the one of Model/SemProg.v (sem_acq/sem_rel): modelled, cross-checked sequentially against the real primitive on every run',
         'one logical thread = one process with one thread (SemLock.count/last_tid are per process)',
         'a timed acquire may give up at any moment (over-approximation of the deadline); fairness/liveness of blocked acquires is not modelled',
         'an exception inside a call ends the call without clean-up in the model; the theorems show none is reachable in Condition/Event',
+        'real-primitive scenarios (real SemLock, forked processes, threads) are judged by outcome monitors only; they sample real schedules, they do not enumerate them',
     ]
 
 
 def replay(path):
     d = json.load(open(path))
     rp = d['replay']
+    if 'real' in rp:
+        return c17real.replay_real(rp['real'])
     job = dict(lockrec=rp['lockrec'], k=rp['k'], scripts=rp['scripts'], sched=rp['sched'], mode='replay')
     out = core.run_driver('c17_driver.py', dict(jobs=[job]))
     r = out['records'][0]
